@@ -20,4 +20,36 @@ PROPS = {
         "note": "",
         "assumptions": COMMON_ASSUME,
     },
+    "C12": {
+        "claimed": True,
+        "title": "P2PK locks: spendable only with the required signatures (NUT-11)",
+        "lean": ["Gonuts.Props.C12", "Gonuts.Tie.Spend"],
+        "streams": ["p2pk"],
+        "level": "proof",
+        "technique": "Lean 4 theorems over Model.Spend (line-by-line model of nut11.go and of the SIG_ALL code in mint.go; Schnorr validity, key parsing and the clock are parameters) against the declarative Spec.Spendable; pinned function bodies + skeleton ties; differential correspondence and a model-free NUT-11 evaluator on real btcec keys/signatures",
+        "design_ref": "DESIGN.md §4.3, §5 C12",
+        "text": "",
+        "note": "",
+        "assumptions": COMMON_ASSUME + [
+            "signatures, keys and digests are symbolic ids; BIP-340 verification is the parameter `valid` (the streams instantiate it with real btcec signatures and cross-check the harness's by-construction table against btcec)",
+            "the JSON decoding of secrets and witnesses (encoding/json, nut10.DeserializeSecret) is outside the model: the model starts from the decoded structures",
+            "time.Now() cannot be controlled in the real code: locktimes in the streams lie 10^6 s in the past or future",
+        ],
+    },
+    "C13": {
+        "claimed": True,
+        "title": "HTLC locks: spendable only with the preimage and required signatures (NUT-14)",
+        "lean": ["Gonuts.Props.C13", "Gonuts.Tie.Spend"],
+        "streams": ["htlc"],
+        "level": "proof",
+        "technique": "Lean 4 theorems over Model.Spend (line-by-line model of nut14.go and the HTLC branch of verifyBlindedMessages; SHA-256 of the preimage, Schnorr validity and the clock are parameters) against the declarative Spec.Spendable; pinned function bodies; differential correspondence and a model-free NUT-14 evaluator on real keys/signatures/preimages",
+        "design_ref": "DESIGN.md §4.3, §5 C13",
+        "text": "",
+        "note": "",
+        "assumptions": COMMON_ASSUME + [
+            "signatures, keys, digests are symbolic ids; `valid` and `sha256hex` are parameters (instantiated with real btcec signatures and crypto/sha256 by the stream)",
+            "the JSON decoding of secrets and witnesses is outside the model",
+            "wallet.ReceiveHTLC is covered through its two helpers (AddWitnessHTLC, AddWitnessHTLCToOutputs) and their order in the wallet skeleton, not by running a wallet against a mint",
+        ],
+    },
 }
